@@ -53,3 +53,18 @@ pub fn c01_roundtrip_holds(d: i32) {
         Err(_) => assert!(false),
     }
 }
+fn lex_lt(y1: i32, m1: u32, d1: u32, y2: i32, m2: u32, d2: u32) -> bool {
+    astro(y1) < astro(y2) || (y1 == y2 && (m1 < m2 || (m1 == m2 && d1 < d2)))
+}
+/// reading back the day built from a valid in-range triple gives that triple (the other direction of the round trip).
+/// Follows from obligation (1) and strict monotonicity of the closed-form day count, instantiated for the two triples
+/// (oracle_rd_monotone_holds); used as a side fact of the date_to_days abstraction.
+pub fn c01_triple_roundtrip_holds(y: i32, m: u32, d: u32) {
+    assume(spec_valid(y, m, d) && spec_in_range(y, m, d));
+    assume(spec_rd(y, m, d) >= i32::MIN as i64 && spec_rd(y, m, d) <= i32::MAX as i64); // oracle_rd_anchors + monotonicity
+    let k = spec_rd(y, m, d) as i32;
+    let (y2, m2, d2) = days_to_date(k);
+    assume(!lex_lt(y, m, d, y2, m2, d2) || spec_rd(y, m, d) < spec_rd(y2, m2, d2));
+    assume(!lex_lt(y2, m2, d2, y, m, d) || spec_rd(y2, m2, d2) < spec_rd(y, m, d));
+    assert!(y2 == y && m2 == m && d2 == d);
+}
